@@ -13,6 +13,34 @@ int c19_U_equal(const void* a, const void* b) { return ((const c19_T*)a)->other 
 const char* c19_U_tostring(const void* a) { static char buf[32]; snprintf(buf, sizeof buf, "U(other=%d)", ((const c19_T*)a)->other); return buf; }
 void c19_U_copy(void* dst, const void* src) { ((c19_T*)dst)->other = ((const c19_T*)src)->other; }
 
+/* ---- re-entrant type R: the C callbacks make their nested call through the C interface */
+c19_nest_cfg c19_nest;
+int c19_nest_calls;
+long long c19_nest_sum;
+void c19_nest_log(long long returned) { c19_nest_calls++; c19_nest_sum += c19_nest_calls * (returned + 100); }
+static void nested_call_c(int key)
+{
+    (void)key;
+    c19_nest_log(mock_scope_c("n")->actualCall("h")->withIntParameters("x", 1)->returnIntValueOrDefault(-5));
+}
+int c19_R_equal(const void* a, const void* b)
+{
+    if (c19_nest.in_equal) nested_call_c(((const c19_T*)a)->key);
+    return ((const c19_T*)a)->key == ((const c19_T*)b)->key;
+}
+const char* c19_R_tostring(const void* a)
+{
+    static char buf[32];
+    if (c19_nest.in_tostring) nested_call_c(((const c19_T*)a)->key);
+    snprintf(buf, sizeof buf, "R(key=%d)", ((const c19_T*)a)->key);
+    return buf;
+}
+void c19_R_copy(void* dst, const void* src)
+{
+    if (c19_nest.in_copy) nested_call_c(((const c19_T*)src)->key);
+    *(c19_T*)dst = *(const c19_T*)src;
+}
+
 static MockSupport_c* support(const c19_op* op) { return op->scope ? mock_scope_c(op->scope) : mock_c(); }
 
 static void obs_double(c19_obs* o, double d) { memcpy(&o->dbits, &d, sizeof d); }
@@ -118,9 +146,10 @@ void c19_run_c(const c19_op* ops, int from, int to, c19_obs* obs, unsigned char 
         case C19_CRASHONFAIL: support(op)->crashOnFailure(op->n); break;
         case C19_INSTALL_CMP:
             if (op->n == 0) support(op)->installComparator(op->type, c19_T_equal, c19_T_tostring);
-            else support(op)->installComparator(op->type, c19_U_equal, c19_U_tostring);
+            else if (op->n == 1) support(op)->installComparator(op->type, c19_U_equal, c19_U_tostring);
+            else support(op)->installComparator(op->type, c19_R_equal, c19_R_tostring);
             break;
-        case C19_INSTALL_CPY: support(op)->installCopier(op->type, op->n == 0 ? c19_T_copy : c19_U_copy); break;
+        case C19_INSTALL_CPY: support(op)->installCopier(op->type, op->n == 0 ? c19_T_copy : op->n == 1 ? c19_U_copy : c19_R_copy); break;
         case C19_REMOVE_ALL: support(op)->removeAllComparatorsAndCopiers(); break;
 
         case C19_E_PARAM:
